@@ -8,6 +8,8 @@ import (
 	"path/filepath"
 	"sort"
 	"strings"
+	"sync"
+	"time"
 
 	"github.com/google/uuid"
 	"github.com/semafind/semadb/cluster"
@@ -32,7 +34,8 @@ type FanOpts struct {
 	MaxShard  int64
 	Batches   int
 	KillOne   bool
-	Wide      bool // 90-id universe, update requests of 40-100 points
+	Wide      bool          // 90-id universe, update requests of 40-100 points
+	Soak      time.Duration // after the history: small update requests back to back for this long (connections grow old)
 	Exe       string
 	KillAfter int // batch index after which the child is killed
 }
@@ -50,6 +53,7 @@ type fan struct {
 	userSrv int
 	onSrv   map[int]int // id -> server of the shard that held it at the last placement
 	wide    bool        // 90 ids, large update requests
+	soaking bool        // inside the soak phase (no placement read after every request)
 }
 
 func (f *fan) entry() *cluster.ClusterNode { return f.nodes[f.r.Intn(len(f.nodes))] }
@@ -215,7 +219,9 @@ func (f *fan) updateVia(n *cluster.ClusterNode, ids []int) {
 	pts, abs := f.points(ids, true)
 	failed, err := n.UpdatePoints(f.col, pts)
 	f.tw.Emit("CUpdate", M{"pts": abs, "ok": b2i(err == nil), "failed": failedList(failed)})
-	f.place()
+	if !f.soaking {
+		f.place()
+	}
 }
 
 func (f *fan) delete() { f.deleteVia(f.entry(), f.pick(1+f.r.Intn(5), 0.7)) }
@@ -318,7 +324,11 @@ func (f *fan) observe(leaves []sd.Q) {
 		w4 := []int{-4, 2, 4, 8}[f.r.Intn(4)]
 		w := float32(w4) / 4
 		q := models.Query{Property: "fl", VectorFlat: &models.SearchVectorFlatOptions{Vector: vec, Operator: models.OperatorNear, Limit: min(limit, 75), Weight: &w}}
-		res, err := f.entry().SearchPoints(f.col, models.SearchRequest{Query: q, Limit: limit})
+		sreq := models.SearchRequest{Query: q, Limit: limit}
+		if f.r.Intn(2) == 0 {
+			sreq.Sort = []models.SortOption{} // "sort": [] in a request: present but empty, same as no sort
+		}
+		res, err := f.entry().SearchPoints(f.col, sreq)
 		if err != nil {
 			f.tw.Emit("CSearchErr", M{"what": "flat"})
 			continue
@@ -423,6 +433,49 @@ func RunFanout(histNo int, seed int64, root string, tw *trace.Writer, o FanOpts)
 		default:
 			f.delete()
 		}
+		f.observe(leaves)
+	}
+	if o.Soak > 0 && f.down == 0 {
+		// four workers on disjoint ids (their requests commute), so that a request is in flight on every
+		// connection practically all the time
+		f.soaking = true
+		end := time.Now().Add(o.Soak)
+		var wg sync.WaitGroup
+		for w := 0; w < 4; w++ {
+			var mine []int
+			for id := range f.live {
+				if id%4 == w {
+					mine = append(mine, id)
+				}
+			}
+			sort.Ints(mine)
+			if len(mine) == 0 {
+				continue
+			}
+			wg.Add(1)
+			go func(w int, mine []int) {
+				defer wg.Done()
+				wr := rand.New(rand.NewSource(seed*31 + int64(w)))
+				g := &sd.Gen{R: wr, Cfg: FanCfg}
+				for time.Now().Before(end) {
+					k := 1 + wr.Intn(min(3, len(mine)))
+					perm := wr.Perm(len(mine))[:k]
+					pts := make([]models.Point, k)
+					abs := make([]M, k)
+					for i, x := range perm {
+						d := g.DocFrom(true, 0.85, nil)
+						data, _ := msgpack.Marshal(d.Real)
+						pts[i] = models.Point{Id: sd.UUIDOf(mine[x]), Data: data}
+						abs[i] = M{"id": mine[x], "doc": d.Abs}
+					}
+					failed, err := f.nodes[wr.Intn(len(f.nodes))].UpdatePoints(f.col, pts)
+					f.tw.Emit("CUpdate", M{"pts": abs, "ok": b2i(err == nil), "failed": failedList(failed)})
+				}
+			}(w, mine)
+		}
+		wg.Wait()
+		f.soaking = false
+		f.place()
 		f.observe(leaves)
 	}
 	_ = strings.Join
